@@ -38,6 +38,9 @@ def run(ctx):
         if r["t"] == "find":
             what = f"palette of {len(r['pal'])} colours, {len(r['qs'])} queries: {v['why']}"
             case = {"t": "find", "pal": r["pal"], "qs": r["qs"][:50]}
+        elif r["t"] == "flat":
+            what = f"quantize {r['w']}x{r['h']} (flat areas {r['cols']}) k={r['k']} dither={r['dither']} -> palette of {r['np']}, colours mapped to {r['maps']}: {v['why']}"
+            case = {k: r[k] for k in ("t", "cols", "w", "h", "k", "dither")}
         else:
             what = f"quantize {r['w']}x{r['h']} k={r['k']} dither={r['dither']} -> palette of {len(r['pal'])}: {v['why']}"
             case = {k: r[k] for k in ("t", "px", "w", "h", "k", "dither")}
@@ -45,10 +48,10 @@ def run(ctx):
     cov = {
         "states": sum(m["states"] for m in ctx.mc), "transitions": sum(m["transitions"] for m in ctx.mc),
         "traces_validated_against_impl": len(recs),
-        "samples": [{"t": r["t"], "palette_size": len(r["pal"]), "k": r.get("k"), "w": r.get("w"), "h": r.get("h")} for r in recs[:: max(1, len(recs) // 4)][:4]],
+        "samples": [{"t": r["t"], "palette_size": len(r.get("pal", [])), "k": r.get("k"), "w": r.get("w"), "h": r.get("h")} for r in recs[:: max(1, len(recs) // 4)][:4]],
         "model_runs": ctx.mc,
         "evaluations": sum(len(r.get("qs", [])) + len(r.get("idx", [])) for r in recs),
-        "distinct_nontrivial": len({(r["t"], len(r["pal"]), r.get("k"), r.get("dither")) for r in recs}),
+        "distinct_nontrivial": len({(r["t"], len(r.get("pal", [])), r.get("k"), r.get("dither")) for r in recs}),
         "rule": "find: palette x queries; quantize: (image, k, dither, background); distinct = distinct (kind, palette size, k, dither)",
     }
     return lib.finish(ctx, "model_checking", cov,
